@@ -8,6 +8,7 @@ import Babble.Props.C08
 import Babble.Props.C09
 import Babble.Props.C10
 import Babble.Props.C12
+import Babble.Props.C13
 import Babble.Props.C14
 import Babble.Props.C16
 import Babble.Props.C17
